@@ -387,13 +387,14 @@ func (s *sim) actsAsLeader(r *replica, term uint64, how string) {
 func (s *sim) process(r *replica) {
 	for iter := 0; iter < 64 && r.up && !s.dead; iter++ {
 		more, busy := true, false
-		if r.removing > 0 {
-			more = false
-		}
 		if s.faultsOn && s.t.Bool(s.cfg.backPressPm) {
 			more = s.t.Bool(500)
 			busy = !more || s.t.Bool(300)
 			s.c.Fault("back_pressure")
+		}
+		if r.removing > 0 {
+			// its apply loop is blocked for good: nothing more is handed out
+			more = false
 		}
 		var rd raft.Ready
 		var has bool
@@ -429,6 +430,7 @@ func (s *sim) handleReady(r *replica, rd *raft.Ready) {
 			s.v("C03", "commit-regress", "replica %d commit %d -> %d", r.id, r.curHS.Commit, rd.HardState.Commit)
 		}
 		r.curHS = rd.HardState
+		c.Log("hs", "r%d %v", r.id, rd.HardState)
 	}
 	if rd.SoftState != nil {
 		r.state = rd.SoftState.RaftState
